@@ -317,6 +317,14 @@ impl<'a> Program<'a> {
         Ok(())
     }
 
+    /// Flush the output file, reporting any write error that is still pending
+    pub fn flush(&mut self) -> Result<(), Error> {
+        if let Some(ref mut wr) = self.wr {
+            wr.flush()?;
+        }
+        Ok(())
+    }
+
     pub fn add_expr(&mut self, expr: Expr) -> Result<(), Error> {
         let val = self.eval(expr)?;
         match val {
@@ -328,8 +336,7 @@ impl<'a> Program<'a> {
                 if let Some(ref mut wr) = self.wr {
                     let pkt = Rc::make_mut(&mut ptr);
 
-                    wr.write_packet(self.now, pkt)
-                        .expect("failed to write packet");
+                    wr.write_packet(self.now, pkt)?;
                 };
             }
             Val::PktGen(mut gen) => {
@@ -342,8 +349,7 @@ impl<'a> Program<'a> {
                     let inner = Rc::make_mut(&mut gen);
 
                     for pkt in inner {
-                        wr.write_packet(self.now, pkt)
-                            .expect("failed to write packet");
+                        wr.write_packet(self.now, pkt)?;
                     }
                 };
             }
